@@ -6,10 +6,12 @@ package main
 
 import (
 	"bytes"
+	"encoding/hex"
 	gojson "encoding/json"
 	"fmt"
 	"math"
 	"runtime/debug"
+	"strings"
 	"unicode/utf8"
 
 	"github.com/d5/tengo/v2"
@@ -92,7 +94,7 @@ func (v VSpec) mk() (tengo.Object, bool) {
 		}
 		for i, c := range v.C {
 			o, ok := c.mk()
-			k, ok2 := keyByName[v.Keys[i]]
+			k, ok2 := keyOf(v.Keys[i])
 			if !ok || !ok2 {
 				return nil, false
 			}
@@ -103,11 +105,94 @@ func (v VSpec) mk() (tengo.Object, bool) {
 		}
 		return &tengo.ImmutableMap{Value: m}, true
 	}
+	if strings.HasPrefix(v.K, "str:") { // composed string, hex of its bytes
+		b, err := hex.DecodeString(v.K[4:])
+		if err != nil {
+			return nil, false
+		}
+		return &tengo.String{Value: string(b)}, true
+	}
 	s, ok := scalarByName[v.K]
 	if !ok {
 		return nil, false
 	}
 	return s.mk(), true
+}
+
+func keyOf(name string) (string, bool) {
+	if strings.HasPrefix(name, "key:") { // composed key, hex of its bytes
+		b, err := hex.DecodeString(name[4:])
+		return string(b), err == nil
+	}
+	k, ok := keyByName[name]
+	return k, ok
+}
+
+// strAtoms: atom alphabet of the compositional string space (part B-str).
+var strAtoms = []string{"a", `"`, `\`, "\n", "\x00", "\x1f", "\x7f", "<", "\u00e9", "\u4e16", "\U0001F600", "\u2028", "\xff", "\xf0\x9f"}
+
+// strSpace: all distinct strings of <= maxLen atoms, in enumeration order.
+func strSpace(maxLen int) []string {
+	seen := map[string]bool{}
+	var out []string
+	na := int64(len(strAtoms))
+	for l := 0; l <= maxLen; l++ {
+		total := int64(1)
+		for i := 0; i < l; i++ {
+			total *= na
+		}
+		for idx := int64(0); idx < total; idx++ {
+			parts := make([]string, l)
+			x := idx
+			for p := l - 1; p >= 0; p-- {
+				parts[p] = strAtoms[x%na]
+				x /= na
+			}
+			s := strings.Join(parts, "")
+			if !seen[s] {
+				seen[s] = true
+				out = append(out, s)
+			}
+		}
+	}
+	return out
+}
+
+// strContexts: the fixed containers a composed string is placed in.
+var strContexts = []string{"top", "array[s]", "imarray[i:min,s]", "map{a:s}", "map{s:true}", "immap{s:array[s]}"}
+
+func strValue(ctx int, str string) VSpec {
+	sv := VSpec{K: "str:" + hex.EncodeToString([]byte(str))}
+	key := "key:" + hex.EncodeToString([]byte(str))
+	switch ctx {
+	case 1:
+		return VSpec{K: "array", C: []VSpec{sv}}
+	case 2:
+		return VSpec{K: "imarray", C: []VSpec{{K: "i:min"}, sv}}
+	case 3:
+		return VSpec{K: "map", Keys: []string{"k:a"}, C: []VSpec{sv}}
+	case 4:
+		return VSpec{K: "map", Keys: []string{key}, C: []VSpec{{K: "true"}}}
+	case 5:
+		return VSpec{K: "immap", Keys: []string{key}, C: []VSpec{{K: "array", C: []VSpec{sv}}}}
+	}
+	return sv
+}
+
+// inFixedLists: the string occurs among the fixed scalars or keys (then a value
+// built from it may coincide with one of the depth-1/2/3 spaces).
+func inFixedLists(str string) bool {
+	for _, sc := range scalarsFull {
+		if x, ok := sc.mk().(*tengo.String); ok && x.Value == str {
+			return true
+		}
+	}
+	for _, k := range keysFull {
+		if k.key == str {
+			return true
+		}
+	}
+	return false
 }
 
 func (v VSpec) isScalar() bool {
